@@ -192,4 +192,6 @@ pub fn run(out: &mut Out, tier: &str, seed: u64) {
         if name == "0" || name == "order8-a" { out.case("kx.client", &[b(&pk), b(&sk), b(&p)], &c.map(|(a, bb)| vec![b(&a), b(&bb)]), true); }
     }
     crate::objapi::kx(out, &mut rng);
+    #[cfg(feature = "nightly")]
+    crate::c18::containers(out, &mut rng, false);
 }
